@@ -39,6 +39,10 @@ def programs(ctx):
                       {"describe": "impl Sub for Sl<'_> { type Output = Self; .. }  derive_ex(Sub)"}))
     out.append(E.Prog("p_kf_self_assoc_const", "#[derive(Clone)] pub struct Sn(pub u8);\nimpl Sn { pub const N: usize = 2; }\n#[derive_ex::derive_ex(Add)]\nimpl core::ops::Add for Sn { type Output = [u8; Self::N]; fn add(self, r: Sn) -> [u8; 2] { [self.0, r.0] } }\n" + rp, [],
                       {"describe": "impl Add for Sn { type Output = [u8; Self::N]; .. }  derive_ex(Add)"}))
+    out.append(E.Prog("p_macro_nested_self", "macro_rules! pair { ($t:ty) => { $t }; }\nmacro_rules! arr { ([$t:ty; $n:expr]) => { [$t; $n] }; }\n#[derive(Clone)] pub struct P(pub u8);\n#[derive_ex::derive_ex(Sub)]\nimpl core::ops::Sub<P> for P { type Output = pair!((Self, Self)); fn sub(self, r: P) -> (P, P) { (self, r) } }\n"
+                      "#[derive(Clone)] pub struct Q(pub u8);\n#[derive_ex::derive_ex(Add, AddAssign)]\nimpl core::ops::Add<arr!([Self; 1])> for Q { type Output = Q; fn add(self, r: [Q; 1]) -> Q { Q(self.0 + r[0].0) } }\n"
+                      "pub fn forms(a: P, b: P, c: Q, d: Q) -> ((P, P), (P, P), Q) { let mut e = c.clone(); e += &[d.clone()]; (&a - &b, &a - b.clone(), &c + [d]) }\n" + rp, [],
+                      {"describe": "impl Sub<P> for P { type Output = pair!((Self, Self)); .. } / impl Add<arr!([Self; 1])> for Q  derive_ex(Sub) / (Add, AddAssign): Self nested in a group inside type-macro arguments"}))
     out.append(E.Prog("p_kf_cfg_output", "#[derive(Clone)] pub struct Sc(pub u8);\n#[derive_ex::derive_ex(Sub)]\nimpl core::ops::Sub for Sc { #[cfg(any())] type Output = i16; #[cfg(all())] type Output = Sc; fn sub(self, r: Sc) -> Sc { Sc(self.0 - r.0) } }\n" + rp, [],
                       {"describe": "impl Sub for Sc { #[cfg(any())] type Output = i16; #[cfg(all())] type Output = Sc; .. }  derive_ex(Sub)"}))
     out.append(E.Prog("p_kf_unsized_rhs_referent", "#[derive(Clone)] pub struct Ss(pub u8);\n#[derive_ex::derive_ex(Add)]\nimpl core::ops::Add<&str> for Ss { type Output = Ss; fn add(self, r: &str) -> Ss { Ss(self.0 + r.len() as u8) } }\n" + rp, [],
